@@ -109,6 +109,9 @@ class AppIter:
 
     def __next__(self):
         S = dsched.S
+        cb = getattr(self.ctx, "on_app_next", None)
+        if cb is not None:
+            cb()
         if S is not None and S.cur is not None:
             S.vo("app", "next")
         if self.raise_at is not None and self.i == self.raise_at:
